@@ -165,86 +165,97 @@ def _self_attr_holds_rule_container(f: FuncInfo, tgt: ast.AST) -> bool:
 def r2_reference_analysis(ctx) -> None:
     r, prog = ctx.r, ctx.prog
     r.rule("C19.R2", "reference analysis agrees with the converter: selectors are resolved only through ConditionSelector.resolve_referenced_detections, every result path of the selector branch uses that result, ConditionItem nodes are traversed over all args, and the per-rule result is accumulated over all parsed conditions")
-    specs = [
-        (VC + ".DanglingDetectionValidator", "condition_referenced_ids", "referenced_ids"),
-        (VC + ".DanglingConditionValidator", "condition_unknown_referenced_ids", "unknown_detection_refs"),
-    ]
-    for cq, helper, acc in specs:
-        h = prog.func(f"{cq}.{helper}")
-        # selector branch
-        sel_ifs = [n for n in walk_no_nested(h.node) if isinstance(n, ast.If) and unparse(n.test) == "isinstance(cond, ConditionSelector)"]
-        if len(sel_ifs) != 1:
-            raise AnalysisError(f"{h.qual}: ConditionSelector branch not found")
-        sb = sel_ifs[0]
-        loc = f"{h.module.relpath}:{sb.lineno}"
-        res_calls = [c for s in sb.body for c in ast.walk(s) if isinstance(c, ast.Call) and call_name(c) == "cond.resolve_referenced_detections" and [unparse(a) for a in c.args] == ["detections"]]
-        if not res_calls:
-            r.violation("C19.R2", h.qual, "cond.resolve_referenced_detections(detections)", "selector is not resolved with the converter's resolver: the validator's notion of 'matches' can differ from what is converted", loc)
-        else:
-            cfg = cfg_of(h)
-            rn = [n for c in res_calls for n in cfg.node_of_expr(c, prog.parent)]
-            rets = [x for s in sb.body for x in ast.walk(s) if isinstance(x, ast.Return)]
-            bypass = [x for x in rets if not all(cfg.must_pass(n, rn) for n in cfg.nodes_of(x))]
-            if bypass:
-                r.violation("C19.R2", h.qual, stmt_head(bypass[0]),
-                            "a result of the selector branch is returned without consulting resolve_referenced_detections (special-casing a pattern such as 'them'): "
-                            "the answer can disagree with the resolver, e.g. when every detection name starts with '_'", f"{h.module.relpath}:{bypass[0].lineno}")
-            else:
-                r.ok("C19.R2", h.qual, "every result of the selector branch is computed from resolve_referenced_detections(detections)", loc)
-        # order of isinstance tests: Identifier/Selector before the generic ConditionItem
-        tests = [unparse(n.test) for n in walk_no_nested(h.node) if isinstance(n, ast.If) and unparse(n.test).startswith("isinstance(cond, ")]
-        if "isinstance(cond, ConditionItem)" in tests and tests.index("isinstance(cond, ConditionItem)") == len(tests) - 1:
-            r.ok("C19.R2", h.qual, f"dispatch order {tests}: specific node classes before ConditionItem", loc)
-        else:
-            r.violation("C19.R2", h.qual, str(tests), "the generic ConditionItem case shadows ConditionIdentifier/ConditionSelector (both are ConditionItem subclasses)", loc)
-        # recursion over all args
-        item_ifs = [n for n in walk_no_nested(h.node) if isinstance(n, ast.If) and unparse(n.test) == "isinstance(cond, ConditionItem)"]
-        okrec = False
-        for ib in item_ifs:
-            loops = [x for s in ib.body for x in ast.walk(s) if isinstance(x, ast.For) and unparse(x.iter) == "cond.args"]
-            for lp in loops:
-                if any(isinstance(c, ast.Call) and call_name(c) == "ids.update" and f"self.{helper}(arg, detections)" in unparse(c) for c in ast.walk(lp)) \
-                        and not any(isinstance(x, (ast.Break, ast.Return)) for x in ast.walk(lp)):
-                    okrec = True
-        if okrec:
-            r.ok("C19.R2", h.qual, "ConditionItem: union over all args, recursively", loc)
-        else:
-            r.violation("C19.R2", h.qual, "for arg in cond.args: ids.update(self.<helper>(arg, detections))", "operator nodes are not traversed completely", loc)
-        # accumulation in validate()
-        v = prog.func(f"{cq}.validate")
-        loops = [n for n in walk_no_nested(v.node) if isinstance(n, ast.For) and unparse(n.iter) == "rule.detection.parsed_condition"]
-        if len(loops) != 1:
-            r.violation("C19.R2", v.qual, "for condition in rule.detection.parsed_condition", "validator does not walk all conditions of the rule", v.loc)
+    from ..tabulate import Proxy, call_method, Raised
+
+    class ConditionItem:
+        def __init__(self, args):
+            self.args = args
+
+    class ConditionIdentifier(ConditionItem):     # as in sigma.conditions: identifiers and selectors ARE condition items
+        def __init__(self, identifier):
+            self.identifier, self.args = identifier, [identifier]
+
+    class ConditionSelector(ConditionItem):
+        def __init__(self, pattern, resolves):
+            self.pattern, self._res, self.args = pattern, resolves, ["1", pattern]
+            self.asked = []
+
+        def resolve_referenced_detections(self, detections):
+            self.asked.append(detections)
+            return [ConditionIdentifier(n) for n in self._res]
+
+    class _Leaf:
+        pass
+
+    class SigmaCorrelationRule:
+        pass
+
+    table: dict = {}
+
+    class SigmaCondition:   # re-parsing a condition string
+        def __init__(self, condition, detections=None, source=None):
+            self.condition = condition
+
+        def parse(self, postprocess=True):
+            return table[self.condition]
+
+        parsed = property(lambda self: table[self.condition])
+
+    def scenario():
+        sel_them = ConditionSelector("them", [])             # every detection name starts with '_': 'them' resolves to nothing
+        sel_f = ConditionSelector("flt2*", ["flt2a", "flt2b"])
+        sel_none = ConditionSelector("nomatch*", [])
+        c1 = ConditionItem([ConditionIdentifier("sel"), ConditionItem([ConditionItem([ConditionIdentifier("flt1"), sel_f, _Leaf(), None])])])
+        c2 = ConditionItem([sel_none, ConditionIdentifier("late")])
+        c3 = sel_them
+        flags = []
+
+        def cond(tree, text=""):
+            return type("Cond", (), {"parse": lambda self, postprocess=True: (flags.append(postprocess), tree)[1],
+                                     "parsed": property(lambda self: (flags.append(True), tree)[1]), "condition": text})()
+        det = type("Det", (), {})()
+        det.detections = {n: object() for n in ("sel", "flt1", "flt2a", "flt2b", "late", "unused", "other")}
+        det.parsed_condition = [cond(c1, "c1"), cond(c2, "c2"), cond(c3, "c3")]
+        # the condition strings the rule was loaded with are outdated once a condition transformation ran
+        det.condition = ["c1", "c2-as-loaded"]
+        table.clear()
+        table.update({"c1": c1, "c2": c2, "c3": c3, "c2-as-loaded": ConditionItem([ConditionIdentifier("late")])})
+        rule = type("Rule", (), {})()
+        rule.detection = det
+        return rule, det, [sel_f, sel_none, sel_them], flags
+    import re as _re
+    env = {"ConditionItem": ConditionItem, "ConditionIdentifier": ConditionIdentifier, "ConditionSelector": ConditionSelector, "SigmaCorrelationRule": SigmaCorrelationRule,
+           "SigmaCondition": SigmaCondition, "re": _re}
+    for cq, want, what in ((VC + ".DanglingDetectionValidator", ["other", "unused"], "unused detections = all detection names minus the names referenced from any condition (identifiers and what the selectors resolve to)"),
+                           (VC + ".DanglingConditionValidator", ["nomatch*", "them"], "dangling selectors = exactly those the converter's resolver resolves to nothing")):
+        v = prog.func(cq + ".validate")
+        try:
+            rule, det, sels, flags = scenario()
+            me = Proxy(prog, cq, env, {})
+            issues = call_method(prog, cq, "validate", me, env, rule)
+            none_for_corr = call_method(prog, cq, "validate", Proxy(prog, cq, env, {}), env, SigmaCorrelationRule())
+        except Raised as ex:
+            r.violation("C19.R2", v.qual, "validate() interpreted on a three-condition rule", f"raises {ex}", v.loc)
             continue
-        lp = loops[0]
-        vloc = f"{v.module.relpath}:{lp.lineno}"
-        rebinds = [n for n in ast.walk(lp) if isinstance(n, ast.Assign) and any(unparse(t) == acc for t in n.targets)]
-        updates = [c for c in ast.walk(lp) if isinstance(c, ast.Call) and call_name(c) == f"{acc}.update" and f"self.{helper}(" in unparse(c)] + \
-                  [n for n in ast.walk(lp) if isinstance(n, ast.AugAssign) and unparse(n.target) == acc and isinstance(n.op, ast.BitOr)]
-        inits = [d for d in assignments_to(v.node, acc) if isinstance(d, ast.AST) and getattr(d, "lineno", 0) < lp.lineno]
-        if rebinds:
-            r.violation("C19.R2", v.qual, unparse(rebinds[0]), f"{acc} is overwritten inside the loop over the conditions: only the last condition counts, so a detection referenced from an earlier condition is reported as unused", f"{v.module.relpath}:{rebinds[0].lineno}")
-        elif updates and inits and not any(isinstance(x, (ast.Break, ast.Continue, ast.Return)) for x in ast.walk(lp)):
-            r.ok("C19.R2", v.qual, f"{acc} accumulated with update() over every parsed condition", vloc)
+        names = []
+        for iss in issues or []:
+            parts = list(getattr(iss, "args", ())) + list(getattr(iss, "kwargs", {}).values())
+            names += [x for x in parts if isinstance(x, str)]
+        asked_ok = all(s_.asked and all(a is det for a in s_.asked) for s_ in sels)
+        if names == want and asked_ok and none_for_corr == [] and flags and not any(flags):
+            r.ok("C19.R2", v.qual, f"validate() interpreted on a rule with three conditions (nested operators, selectors, a 'them' that resolves to nothing): {what}; selectors resolved through resolve_referenced_detections(rule.detection) on the unpostprocessed parse tree; correlation rules skipped", v.loc)
         else:
-            r.violation("C19.R2", v.qual, stmt_head(lp), f"{acc} is not accumulated over all conditions", vloc)
-    # the final set arithmetic of the dangling-detection validator
-    v = prog.func(VC + ".DanglingDetectionValidator.validate")
-    src = unparse(v.node)
-    diff = [n for n in ast.walk(v.node) if isinstance(n, ast.BinOp) and isinstance(n.op, ast.Sub) and unparse(n) == "detection_names - referenced_ids"]
-    in_result = any(isinstance(a_, ast.comprehension) or (isinstance(a_, ast.Call) and call_name(a_) in ("sorted", "list", "set", "frozenset")) for d_ in diff for a_ in [prog.parent(d_)])
-    if diff and in_result and ("{name for name in rule.detection.detections.keys()}" in src or "set(rule.detection.detections" in src):
-        r.ok("C19.R2", v.qual, "unused = all detection names − referenced names", v.loc)
-    else:
-        r.violation("C19.R2", v.qual, "detection_names - referenced_ids", "unused detections are not computed as (all detection names) minus (referenced names)", v.loc)
-    h = prog.func(VC + ".DanglingConditionValidator.condition_unknown_referenced_ids")
-    rets = [x for x in walk_no_nested(h.node) if isinstance(x, ast.Return) and unparse(x.value) == "{cond.pattern}"]
-    okp = rets and any(g[0].startswith("resolved_detections == set()") or g[0] in ("not resolved_detections", "len(resolved_detections) == 0") for g in atomic_guards(guards_at(prog, h, rets[0])) if g[1])
-    if okp:
-        r.ok("C19.R2", h.qual, "dangling iff the resolver returns no detection", h.loc)
-    else:
-        r.violation("C19.R2", h.qual, "return {cond.pattern}", "a selector must be reported exactly when the resolved set is empty", h.loc)
-    r.floor("C19.R2", 9)
+            why = []
+            if names != want:
+                why.append(f"reports {names}, specified {want} (in sorted order)")
+            if not asked_ok:
+                why.append("a selector was not resolved through ConditionSelector.resolve_referenced_detections(rule.detection) — the validator's notion of 'matches' can differ from what is converted (e.g. special-casing 'them')")
+            if none_for_corr != []:
+                why.append(f"a correlation rule yields {none_for_corr}")
+            if not flags or any(flags):
+                why.append("conditions are not parsed with parse(False) (the unpostprocessed tree)")
+            r.violation("C19.R2", v.qual, f"validate(): {why[0][:160]}", "; ".join(why) + f" — {what}", v.loc)
+    r.floor("C19.R2", 2)
 
 
 def _r3_exclusion_table(ctx) -> None:
@@ -284,60 +295,97 @@ def r3_exclusions_uniqueness(ctx) -> None:
     r, prog = ctx.r, ctx.prog
     r.rule("C19.R3", "validate_rule skips a validator iff its class is in exclusions[rule.id]; uniqueness tables are filled unconditionally (only a None test on the key) in validate and reported in finalize for groups with more than one member")
     _r3_exclusion_table(ctx)
-    vr = prog.func("sigma.validation.SigmaValidator.validate_rule")
-    src = unparse(vr.node)
-    ext = [c for c in walk_no_nested(vr.node) if isinstance(c, ast.Call) and call_name(c) == "issues.extend"]
-    if "exclusions = self.exclusions[rule.id]" in src and len(ext) == 1:
-        gs = atomic_guards(guards_at(prog, vr, ext[0]))
-        if ("validator.__class__ not in exclusions", True) in gs or ("validator.__class__ in exclusions", False) in gs or ("type(validator) not in exclusions", True) in gs:
-            if len([g for g in gs]) == 1:
-                r.ok("C19.R3", vr.qual, "validator.validate(rule) iff validator.__class__ not in exclusions[rule.id]", f"{vr.module.relpath}:{ext[0].lineno}")
-            else:
-                r.violation("C19.R3", vr.qual, short(ext[0]), f"additional conditions decide whether a validator runs: {gs}", f"{vr.module.relpath}:{ext[0].lineno}")
-        else:
-            r.violation("C19.R3", vr.qual, short(ext[0]), f"validators are not skipped exactly by class membership in the rule's exclusion set ({gs})", f"{vr.module.relpath}:{ext[0].lineno}")
-        lp = [n for n in walk_no_nested(vr.node) if isinstance(n, ast.For)]
-        if lp and unparse(lp[0].iter) == "self.validators":
-            r.ok("C19.R3", vr.qual, "all configured validators are consulted", vr.loc)
-        else:
-            r.violation("C19.R3", vr.qual, "for validator in self.validators", "not every configured validator is consulted", vr.loc)
+    from collections import defaultdict
+    from ..tabulate import Proxy, call_method, Raised, Recorded
+    SV = "sigma.validation.SigmaValidator"
+    vr = prog.func(SV + ".validate_rule")
+    log: list = []
+
+    def mk(name):
+        return type(name, (), {"validate": lambda self, rule: (log.append((name, rule.name)), [(name, rule.name)])[1],
+                               "finalize": lambda self: (log.append((name, "finalize")), [(name, "finalize")])[1]})
+    VA, VB, VC = mk("A"), mk("B"), mk("C")
+    VB2 = type("B2", (VB,), {"validate": lambda self, rule: (log.append(("B2", rule.name)), [("B2", rule.name)])[1],
+                             "finalize": lambda self: (log.append(("B2", "finalize")), [("B2", "finalize")])[1]})
+
+    class _R:
+        def __init__(self, id_, name):
+            self.id, self.name = id_, name
+    env = {"defaultdict": defaultdict}
+    try:
+        me = Proxy(prog, SV, env, {"validators": [VA(), VB(), VC(), VB2()], "exclusions": defaultdict(set, {1: {VB}, 3: {VA, VB, VC}})})
+        got1 = call_method(prog, SV, "validate_rule", me, env, _R(1, "r1"))
+        got2 = call_method(prog, SV, "validate_rule", me, env, _R(2, "r2"))
+        got3 = call_method(prog, SV, "validate_rule", me, env, _R(3, "r3"))
+        me.exclusions[None] = {VA}
+        got4 = call_method(prog, SV, "validate_rule", me, env, _R(None, "r4"))
+        del log[:]
+        got_all = call_method(prog, SV, "validate_rules", me, env, iter([_R(1, "r1"), _R(2, "r2")]))
+    except Raised as ex:
+        got1 = got2 = got3 = got4 = got_all = f"<raises {ex}>"
+    want1, want2, want3 = [("A", "r1"), ("C", "r1"), ("B2", "r1")], [("A", "r2"), ("B", "r2"), ("C", "r2"), ("B2", "r2")], [("B2", "r3")]
+    want_all = want1 + want2 + [("A", "finalize"), ("B", "finalize"), ("C", "finalize"), ("B2", "finalize")]
+    want4 = [("B", "r4"), ("C", "r4"), ("B2", "r4")]
+    if (got1, got2, got3, got4) == (want1, want2, want3, want4):
+        r.ok("C19.R3", vr.qual, "validate_rule interpreted: every configured validator runs unless its class is in exclusions[rule.id]", vr.loc)
     else:
-        r.violation("C19.R3", vr.qual, "exclusions = self.exclusions[rule.id]", "exclusions are not looked up by the rule's id", vr.loc)
-    vrs = prog.func("sigma.validation.SigmaValidator.validate_rules")
-    if unparse(vrs.node.body[-1]).replace(" ", "") == "return[issueforruleinrulesforissueinself.validate_rule(rule)]+self.finalize()":
-        r.ok("C19.R3", vrs.qual, "every rule validated once, then finalize() once", vrs.loc)
+        r.violation("C19.R3", vr.qual, f"validate_rule: {got1} / {got2} / {got3} / {got4}", f"specified {want1} / {want2} / {want3} / {want4} (validator B excluded for rule 1, all for rule 3, A for rules without id): exclusions must suppress exactly the excluded validator for the excluded rule id", vr.loc)
+    vrs = prog.func(SV + ".validate_rules")
+    fin_pos = [k for k, e in enumerate(log) if e[1] == "finalize"]
+    val_pos = [k for k, e in enumerate(log) if e[1] != "finalize"]
+    if got_all == want_all and fin_pos and val_pos and min(fin_pos) > max(val_pos):
+        r.ok("C19.R3", vrs.qual, "validate_rules interpreted: every rule validated once, then every validator finalised once", vrs.loc)
     else:
-        r.violation("C19.R3", vrs.qual, unparse(vrs.node.body[-1])[:120], "validate_rules must validate every rule once and finalize once afterwards", vrs.loc)
-    tables = [
-        (VM + ".IdentifierUniquenessValidator", "self.ids", "rule.id", "rule.id is not None"),
-        (VM + ".DuplicateTitleValidator", "self.titles", "rule.title", "rule.title is not None"),
-        (VM + ".DuplicateFilenameValidator", "self.filenames_to_rules", "rule.source.path.name", "rule.source is not None"),
-    ]
-    for cq, table, key, guard in tables:
-        v = prog.func(cq + ".validate")
-        apps = [c for c in walk_no_nested(v.node) if isinstance(c, ast.Call) and unparse(c.func) == f"{table}[{key}].append" and [unparse(a) for a in c.args] == ["rule"]]
-        loc = v.loc
-        if len(apps) != 1:
-            r.violation("C19.R3", v.qual, f"{table}[{key}].append(rule)", "rule is not entered into the uniqueness table under its value", loc)
+        r.violation("C19.R3", vrs.qual, f"validate_rules yields {got_all}", f"specified {want_all}, with all finalize() calls after the last validate(): uniqueness validators report in finalize and must have seen every rule", vrs.loc)
+    # uniqueness validators: interpreted on a run of stand-in rules
+    class _Path:
+        def __init__(self, d, name):
+            self.d, self.name = d, name
+
+        def __str__(self):
+            return f"{self.d}/{self.name}"
+
+    class _Rule:
+        """stand-in rule: compares equal by content, like the dataclass rules (two copies of a rule are equal, not identical)"""
+        def __init__(self, name, id_=None, title=None, source=None):
+            self.name, self.id, self.title, self.source = name, id_, title, source
+
+        def __eq__(self, o):
+            return isinstance(o, _Rule) and (self.id, self.title, str(getattr(self.source, "path", None))) == (o.id, o.title, str(getattr(o.source, "path", None)))
+
+        __hash__ = None
+
+    def rules_for(attr):
+        if attr == "source":
+            spec = [("d1", "a.yml"), ("d1", "a.yml"), ("d2", "a.yml"), None, ("d1", "b.yml"), ("d1", "b.yml"), ("d1", "c.yml"), ("d3", "c.yml")]
+            return [_Rule(f"r{k}", source=(type("S", (), {"path": _Path(*v)})() if v else None)) for k, v in enumerate(spec)]
+        vals = ["u1", "u1", "u2", None, "u3", "u3", "u3", "", ""]
+        return [_Rule(f"r{k}", **{("id_" if attr == "id" else "title"): v}) for k, v in enumerate(vals)]
+    for cq, attr in ((VM + ".IdentifierUniquenessValidator", "id"), (VM + ".DuplicateTitleValidator", "title"), (VM + ".DuplicateFilenameValidator", "source")):
+        f = prog.func(cq + ".validate")
+        env2 = {"defaultdict": defaultdict, "super": lambda *a: type("B", (), {"__init__": lambda self, *a, **k: None})()}
+        try:
+            me = Proxy(prog, cq, env2, {})
+            call_method(prog, cq, "__init__", me, env2)
+            rs = rules_for(attr)
+            for ro in rs:
+                out = call_method(prog, cq, "validate", me, env2, ro)
+            issues = call_method(prog, cq, "finalize", me, env2)
+        except Raised as ex:
+            r.violation("C19.R3", f.qual, "uniqueness validator interpreted", f"raises {ex}", f.loc)
+            continue
+        groups = set()
+        for iss in issues or []:
+            parts = list(getattr(iss, "args", ())) + list(getattr(iss, "kwargs", {}).values())
+            members = next((x for x in parts if isinstance(x, list)), [])
+            key = next((x for x in parts if not isinstance(x, list)), None)
+            groups.add((tuple(sorted(getattr(m, "name", str(m)) for m in members)), str(key)))
+        want = {(("r0", "r1", "r2"), "a.yml"), (("r6", "r7"), "c.yml")} if attr == "source" else {(("r0", "r1"), "u1"), (("r4", "r5", "r6"), "u3"), (("r7", "r8"), "")}
+        if groups == want:
+            r.ok("C19.R3", f.qual, f"{cq.rsplit('.', 1)[-1]} interpreted on a run of rules (content-equal copies, None values, empty strings, several rules per file): issues name exactly the groups that share a value, with all their members", f.loc)
         else:
-            gs = atomic_guards(guards_at(prog, v, apps[0]))
-            if gs == [(guard, True)]:
-                r.ok("C19.R3", v.qual, f"{table}[{key}].append(rule) iff {guard}", f"{v.module.relpath}:{apps[0].lineno}")
-            else:
-                r.violation("C19.R3", v.qual, f"{short(apps[0], 60)} under {gs}",
-                            f"whether a rule enters the table depends on more than `{guard}` (e.g. a value-equality membership test drops content-identical copies, so the reported group is too small or missing)", f"{v.module.relpath}:{apps[0].lineno}")
-        f = prog.func(cq + ".finalize")
-        comps = [n for n in walk_no_nested(f.node) if isinstance(n, ast.ListComp)]
-        okf = False
-        for cmp_ in comps:
-            ifs = [unparse(i) for g in cmp_.generators for i in g.ifs]
-            if len(ifs) == 1 and ifs[0] in ("len(rules) > 1", "len(paths) > 1"):
-                okf = True
-        if okf:
-            r.ok("C19.R3", f.qual, "issue per group with more than one member", f.loc)
-        else:
-            r.violation("C19.R3", f.qual, short(comps[0], 120) if comps else "finalize", "collision groups must be exactly those with more than one member", f.loc)
-    r.floor("C19.R3", 9)
+            r.violation("C19.R3", f.qual, f"uniqueness groups {sorted(groups)}", f"specified {sorted(want)}: every rule with a value enters the table, groups with more than one member are reported with all their members", f.loc)
+    r.floor("C19.R3", 6)
 
 
 VALIDATOR_STATE = {
@@ -397,17 +445,47 @@ def r5_runs_and_words(ctx) -> None:
     import re as _re
     r, prog = ctx.r, ctx.prog
     r.rule("C19.R5", "a validator object can be used for several runs and reads conditions as tokens: finalize() of every uniqueness validator re-initialises each table it reports from; checks for the selector word 'them' match it as a whole token after 'of', not as a substring of a detection name or pattern")
-    for cq, tables in (("sigma.validators.core.metadata.IdentifierUniquenessValidator", ["ids"]), ("sigma.validators.core.metadata.DuplicateTitleValidator", ["titles"]),
-                       ("sigma.validators.core.metadata.DuplicateFilenameValidator", ["filenames_to_rules", "filenames_to_paths"])):
+    # a second run with the same validator object gives the verdict of a fresh one: interpreted (two runs, the second over
+    # fewer rules; nothing of the first may show)
+    from collections import defaultdict
+    from ..tabulate import Proxy, call_method, Raised
+
+    class _P:
+        def __init__(self, d, n):
+            self.d, self.name = d, n
+
+        def __str__(self):
+            return f"{self.d}/{self.name}"
+
+    def mkrule(k, v, attr):
+        ro = type("Rule", (), {})()
+        ro.name, ro.id, ro.title, ro.source = f"r{k}", None, None, None
+        if attr == "source":
+            ro.source = type("S", (), {"path": _P(*v)})()
+        else:
+            setattr(ro, attr, v)
+        return ro
+    for cq, attr, run1, run2 in (("sigma.validators.core.metadata.IdentifierUniquenessValidator", "id", ["u1", "u1", "u2"], ["u1", "u2"]),
+                                 ("sigma.validators.core.metadata.DuplicateTitleValidator", "title", ["t", "t"], ["t"]),
+                                 ("sigma.validators.core.metadata.DuplicateFilenameValidator", "source", [("d1", "a.yml"), ("d2", "a.yml")], [("d1", "a.yml")])):
         f = prog.func(cq + ".finalize")
-        for t in tables:
-            resets = [n for n in walk_no_nested(f.node) if isinstance(n, ast.Assign) and unparse(n.targets[0]) == f"self.{t}" and isinstance(n.value, ast.Call) and call_name(n.value) in ("defaultdict", "dict", "list", "set")]
-            rets = [x for x in walk_no_nested(f.node) if isinstance(x, ast.Return)]
-            loc = f.loc
-            if resets and rets and all(x.lineno > resets[0].lineno for x in rets):
-                r.ok("C19.R5", f.qual, f"self.{t} re-initialised before finalize() returns", loc)
-            else:
-                r.violation("C19.R5", f.qual, f"self.{t} never reset", "the table keeps the rules of the finished run: validating again with the same validator object reports every rule as colliding with itself (and with rules of earlier collections)", loc)
+        env2 = {"defaultdict": defaultdict, "super": lambda *a: type("B", (), {"__init__": lambda self, *a, **k: None})()}
+        try:
+            me = Proxy(prog, cq, env2, {})
+            call_method(prog, cq, "__init__", me, env2)
+            for k, v in enumerate(run1):
+                call_method(prog, cq, "validate", me, env2, mkrule(k, v, attr))
+            first = call_method(prog, cq, "finalize", me, env2)
+            for k, v in enumerate(run2):
+                call_method(prog, cq, "validate", me, env2, mkrule(k + 10, v, attr))
+            second = call_method(prog, cq, "finalize", me, env2)
+        except Raised as ex:
+            r.violation("C19.R5", f.qual, "two runs with one validator object", f"raises {ex}", f.loc)
+            continue
+        if len(first or []) == 1 and not second:
+            r.ok("C19.R5", f.qual, "second run with the same object reports nothing of the first run (tables start from scratch after finalize)", f.loc)
+        else:
+            r.violation("C19.R5", f.qual, f"first run {len(first or [])} issue(s), second run {len(second or [])} issue(s)", "the tables keep the rules of the finished run: validating again with the same validator object reports rules of the earlier run as colliding (specified: 1 issue, then none)", f.loc)
     # selector word tests in the condition validators
     m = prog.module("sigma.validators.core.condition")
     probes_no = ["selection_themida", "all of themida_*", "1 of themes*", "not all of them-x"]
@@ -438,4 +516,4 @@ def r5_runs_and_words(ctx) -> None:
                     r.violation("C19.R5", fn.qual, unparse(n), "substring test on the condition text: a detection called selection_themida contains 'them'", f"{m.relpath}:{n.lineno}")
     if n_pat < 2:
         raise AnalysisError(f"only {n_pat} 'them' patterns found in the condition validators (2 confirmed)")
-    r.floor("C19.R5", 6)
+    r.floor("C19.R5", 5)
